@@ -99,6 +99,16 @@ def to_data(case):
     return data, samples
 
 
+def _same_tree(a, b):
+    if isinstance(a, dict):
+        return isinstance(b, dict) and sorted(a) == sorted(b) and all(_same_tree(a[k], b[k]) for k in a)
+    if isinstance(a, (list, tuple)):
+        return isinstance(b, (list, tuple)) and len(a) == len(b) and all(_same_tree(x, y) for x, y in zip(a, b))
+    if isinstance(a, np.ndarray):
+        return isinstance(b, np.ndarray) and a.shape == b.shape and np.array_equal(a, b)
+    return a == b
+
+
 def stub_station_angles(stations, phase, radians=False):
     """identity-coded coefficient rows: [az, toa, phase code, 0, 0, 0]"""
     try:
@@ -128,6 +138,8 @@ def phase_codes(key, kind):
 def run_builder(inv, case, stub=True):
     """run the implementation's builder; returns (rows, w, phase_ok) integer-encoded."""
     data, samples = to_data(case)
+    import copy
+    before = copy.deepcopy((data, samples))
     kind = case['kind']
     real = inv.station_angles
     if stub:
@@ -182,6 +194,9 @@ def run_builder(inv, case, stub=True):
         return {'error': 'builder raised %s: %s' % (type(e).__name__, e)}
     finally:
         inv.station_angles = real
+    if not _same_tree(before, (data, samples)):
+        # the event dictionary and the location records are used again (other data types, other events, the output file)
+        return {'error': 'the builder changed the event data or the location records it was given'}
     if kind != 'ar':
         wv = np.asarray(w, dtype=float).flatten()
         if wv.size == 1 and wv[0] == 0:
